@@ -9,6 +9,7 @@ pub mod c24_table;
 pub mod hist;
 pub mod iter;
 pub mod lower;
+pub mod sem;
 
 pub fn all() -> Vec<Box<dyn Prop>> {
     vec![Box::new(c01::C01 { which: 1 }), Box::new(c01::C01 { which: 2 }), Box::new(c03::C03),
@@ -21,6 +22,11 @@ pub fn all() -> Vec<Box<dyn Prop>> {
         Box::new(hist::Hist { id: "C29" }),
         Box::new(c24::C24),
         Box::new(c13::C13),
+        Box::new(sem::Sem { id: "C16" }),
+        Box::new(sem::Sem { id: "C17" }),
+        Box::new(sem::Sem { id: "C18" }),
+        Box::new(sem::Sem { id: "C19" }),
+        Box::new(sem::Sem { id: "C20" }),
         Box::new(c27::C27),
         Box::new(c27::C28),
         Box::new(iter::Iter { id: "C25" }),
